@@ -1,6 +1,6 @@
 SPECIFICATION Spec
 CONSTANT Scenarios <- MCScenarios
-CONSTANT Deviations = {"NoIdentityCheck", "SpecialNoIdentityCheck", "ProbeFollowsLinks"}
+CONSTANT Deviations = {"NoIdentityCheck", "SpecialNoIdentityCheck", "ProbeFollowsLinks", "IdentityByPathOnly"}
 INVARIANTS InvC03 InvC08 InvC16 InvDirBeforeChild InvOutcome EmitPrediction
 PROPERTY Termination
 CHECK_DEADLOCK TRUE
